@@ -73,6 +73,14 @@ func genC21Struct(t *rapid.T, camel bool, depth int, used map[string]bool) *gen.
 			s.Fields = append(s.Fields, gen.FieldSpec{Name: "EmbA", Embedded: true, Type: embASpec()})
 			continue
 		}
+		// an embedded struct whose own fields carry omit tags
+		if depth == 0 && rapid.IntRange(0, 7).Draw(t, "embt") == 0 && !used["embkept"] {
+			for _, n := range []string{"embkept", "embnz", "embne", "embplain"} {
+				used[n] = true
+			}
+			s.Fields = append(s.Fields, gen.FieldSpec{Name: "EmbT", Embedded: true, Type: gen.NamedSpec("EmbT")})
+			continue
+		}
 		// two / three levels of embedding (Emb1 embeds Emb2 embeds Emb3)
 		if depth == 0 && rapid.IntRange(0, 7).Draw(t, "emb3") == 0 && !used["embp"] {
 			for _, n := range []string{"embp", "embq", "embr", "embm", "embn"} {
